@@ -161,3 +161,36 @@ def euler_zyz(R):
         else:
             alpha = math.atan2(-R[1, 0], -R[0, 0])
     return alpha, beta, gamma
+
+
+@lru_cache(maxsize=None)
+def barrier_poly_coeffs(L):
+    """coefficients c_i (ascending) with |theta_L(i z)|^2 = sum_i c_i (z^2)^i, exact"""
+    a = reverse_bessel_coeffs(L)
+    re = [Fraction(0)] * (L + 1)
+    im = [Fraction(0)] * (L + 1)
+    for p, ap in enumerate(a):
+        ph = p % 4
+        if ph == 0:
+            re[p] += ap
+        elif ph == 1:
+            im[p] += ap
+        elif ph == 2:
+            re[p] -= ap
+        else:
+            im[p] -= ap
+    sq = [Fraction(0)] * (2 * L + 1)
+    for i in range(L + 1):
+        for j in range(L + 1):
+            sq[i + j] += re[i] * re[j] + im[i] * im[j]
+    assert all(sq[k] == 0 for k in range(1, 2 * L + 1, 2))
+    return tuple(sq[0::2])
+
+
+def bw_barrier_sq_vec(L, w):
+    """|theta_L(i z)|^2 as a polynomial in w = z^2 (w may be negative: analytic continuation below threshold)"""
+    w = np.asarray(w, dtype=np.float64)
+    tot = np.zeros_like(w)
+    for i, c in enumerate(barrier_poly_coeffs(L)):
+        tot = tot + float(c) * w ** i
+    return tot
